@@ -118,7 +118,7 @@ def run(chk, repo, tier):
     # double-and-add multiply recurses one frame per scalar bit; the package provisions that at import time.
     chk.rule("C04.R8", "recursion budget: recursive functions below the verification entry points have a static depth bound (halving "
                        "measure, constant scalars at their call sites) and the recursion limit the package leaves in force at import "
-                       "is at least CPython's default plus that depth", 2)
+                       "is at least CPython's default plus that depth", 1)
     from ..recursion import recursion_budget
     from ..interp import World as _World
     roots = [f"{CS}.{s_}.{e_}" for s_ in ("BaseG2Ciphersuite",) + tuple(SUITES) for e_ in ENTRY]
